@@ -593,7 +593,7 @@ def run_and_collect(ctx, pkgs, procs=8, profile="debug"):
     """Build + run the packages (vh-exec); returns (trace records, failures).
     failures: [{"pkg", "kind": build|crash|timeout|panic|run|missing, "detail", "source"?}]"""
     from lib.swayexec import run_packages, observe
-    jobs = [{"id": p["id"], "files": {"src/main.sw": p["src"]}, "profile": profile, "want": ["abi", "diag"]} for p in pkgs]
+    jobs = [{"id": p["id"], "files": {"src/main.sw": p["src"]}, "profile": p.get("profile", profile), "want": ["abi", "diag"]} for p in pkgs]
     res = run_packages(ctx, jobs, procs=procs)
     trace, failures = [], []
     for p in pkgs:
@@ -605,7 +605,7 @@ def run_and_collect(ctx, pkgs, procs=8, profile="debug"):
         if not b["ok"]:
             kind = "timeout" if b.get("timeout") else ("panic" if b.get("panic") else "build")
             errs = [x.strip()[-700:] for x in (b.get("diag") or "").split("____") if x.strip().startswith("error")]
-            failures.append({"pkg": p["id"], "kind": kind, "profile": profile, "source": p["src"],
+            failures.append({"pkg": p["id"], "kind": kind, "profile": p.get("profile", profile), "source": p["src"],
                              "detail": (b.get("panic") or b.get("err") or "") + " | " + " | ".join(errs[:2])})
             continue
         if r["runfailed"]:
